@@ -589,4 +589,164 @@ theorem lex_getJsonText (v : J) : lex .out (getJsonText v) = some (toksV v) :=
   lex_compact _ _ _ (lex_dumps2 v)
 
 
+
+/-! ## the token-level parser on the tokens of a value -/
+
+theorem digitsVal_map (l : List Char) : ∀ acc, digitsVal (l.map Char.toNat) acc = Nat.ofDigitChars 10 l acc := by
+  induction l with
+  | nil => intro acc; rfl
+  | cons c l ih =>
+    intro acc
+    simp only [List.map_cons, digitsVal, ih, Nat.ofDigitChars, List.foldl_cons]
+    congr 1
+    have : '0'.toNat = 48 := by decide
+    rw [this, Nat.mul_comm]
+
+theorem digitChar_ne_zero {k : Nat} (h1 : 0 < k) (h2 : k < 10) : Nat.digitChar k ≠ '0' := by
+  have : k = 1 ∨ k = 2 ∨ k = 3 ∨ k = 4 ∨ k = 5 ∨ k = 6 ∨ k = 7 ∨ k = 8 ∨ k = 9 := by omega
+  rcases this with rfl | rfl | rfl | rfl | rfl | rfl | rfl | rfl | rfl <;> decide
+
+theorem toDigits_head_ne_zero : ∀ (n : Nat), 0 < n → ∀ c rest, Nat.toDigits 10 n = c :: rest → c ≠ '0' := by
+  intro n
+  induction n using Nat.strongRecOn with
+  | _ n ih =>
+    intro hn c rest h
+    by_cases hlt : n < 10
+    · rw [Nat.toDigits_of_lt_base hlt] at h
+      injection h with h _
+      rw [← h]; exact digitChar_ne_zero hn hlt
+    · have hb : 10 ≤ n := by omega
+      rw [Nat.toDigits_of_base_le (by decide) hb] at h
+      cases h0 : Nat.toDigits 10 (n / 10) with
+      | nil => exact absurd h0 Nat.toDigits_ne_nil
+      | cons c0 r0 =>
+        rw [h0] at h
+        injection h with h _
+        rw [← h]
+        exact ih (n / 10) (by omega) (by omega) c0 r0 h0
+
+theorem numRoundtrip (n : Nat) : numOf (natDigits n) = some n := by
+  have hv : digitsVal (natDigits n) 0 = n := by
+    rw [natDigits, digitsVal_map, Nat.ofDigitChars_toDigits (by decide) (by decide)]
+  unfold numOf
+  split
+  · rename_i h; exact absurd h (natDigits_ne_nil n)
+  · rename_i x y h
+    exfalso
+    have hn : 0 < n := by
+      cases n with
+      | zero => simp [natDigits, Nat.toDigits_zero] at h
+      | succ k => omega
+    cases h0 : Nat.toDigits 10 n with
+    | nil => exact absurd h0 Nat.toDigits_ne_nil
+    | cons c r =>
+      have hc := toDigits_head_ne_zero n hn c r h0
+      simp only [natDigits, h0, List.map_cons, List.cons.injEq] at h
+      apply hc
+      have : c = Char.ofNat c.toNat := (Char.ofNat_toNat c).symm
+      rw [this, h.1]
+  · rw [hv]
+
+
+/-- the one unproved ingredient of the round trip: `\uXXXX`/escape decoding inverts `escStr` on strings without a
+surrogate pair (pure arithmetic on hexadecimal digits and UTF-16 surrogates). -/
+def DecodeEsc : Prop := ∀ s : Str, strOk s = true → decode (escStr s) = some s
+
+
+theorem toksV_head (v : J) : ∃ h tl, toksV v = h :: tl ∧ h ≠ Tok.rb ∧ h ≠ Tok.rc := by
+  cases v with
+  | num n => exact ⟨Tok.num (natDigits n), [], by simp [toksV], by simp, by simp⟩
+  | str s => exact ⟨Tok.str (escStr s), [], by simp [toksV], by simp, by simp⟩
+  | arr l =>
+    cases l with
+    | nil => exact ⟨Tok.lb, [Tok.rb], by simp [toksV], by simp, by simp⟩
+    | cons x xs => exact ⟨Tok.lb, toksItems (x :: xs) ++ [Tok.rb], by simp [toksV], by simp, by simp⟩
+  | obj l =>
+    cases l with
+    | nil => exact ⟨Tok.lc, [Tok.rc], by simp [toksV], by simp, by simp⟩
+    | cons x xs => exact ⟨Tok.lc, toksMembers (x :: xs) ++ [Tok.rc], by simp [toksV], by simp, by simp⟩
+
+theorem pVal_lb {h : Tok} (hne : h ≠ Tok.rb) (n : Nat) (r : List Tok) :
+    pVal (n + 1) (.lb :: h :: r) = (pItems n (h :: r)).map fun p => (J.arr p.1, p.2) := by
+  cases h <;> simp_all [pVal]
+
+theorem toksItems_head (x : J) (xs : List J) : ∃ h tl, toksItems (x :: xs) = h :: tl ∧ h ≠ Tok.rb := by
+  obtain ⟨h, tl, e, h1, _⟩ := toksV_head x
+  cases xs with
+  | nil => exact ⟨h, tl, by simp [toksItems, e], h1⟩
+  | cons y ys => exact ⟨h, tl ++ Tok.comma :: toksItems (y :: ys), by simp [toksItems, e], h1⟩
+
+mutual
+theorem pVal_toksV (hs : DecodeEsc) : ∀ (v : J) (n : Nat) (rest : List Tok), J.ok v = true →
+    (toksV v).length ≤ n → pVal n (toksV v ++ rest) = some (v, rest)
+  | v, 0, rest, hok, hlen => by
+    obtain ⟨h, tl, e, _⟩ := toksV_head v
+    rw [e] at hlen; simp at hlen
+  | .num k, n + 1, rest, hok, hlen => by simp [toksV, pVal, numRoundtrip k]
+  | .str s, n + 1, rest, hok, hlen => by
+    simp only [J.ok] at hok
+    simp [toksV, pVal, hs s hok]
+  | .arr [], n + 1, rest, hok, hlen => by simp [toksV, pVal]
+  | .arr (x :: xs), n + 1, rest, hok, hlen => by
+    simp only [J.ok] at hok
+    simp only [toksV, List.length_cons, List.length_append, List.length_nil] at hlen
+    obtain ⟨h, tl, e, h1⟩ := toksItems_head x xs
+    have := pItems_toks hs (x :: xs) n rest (by simp) hok (by omega)
+    simp only [toksV, List.cons_append, List.append_assoc, List.nil_append]
+    rw [e] at this ⊢
+    rw [List.cons_append, pVal_lb h1, ← List.cons_append, this]
+    rfl
+  | .obj [], n + 1, rest, hok, hlen => by simp [toksV, pVal]
+  | .obj ((k, v) :: kvs), n + 1, rest, hok, hlen => by
+    simp only [J.ok] at hok
+    simp only [toksV, List.length_cons, List.length_append, List.length_nil] at hlen
+    have := pMembers_toks hs ((k, v) :: kvs) n rest (by simp) hok (by omega)
+    simp only [toksV, List.cons_append, List.append_assoc, List.nil_append]
+    cases kvs with
+    | nil =>
+      simp only [toksMembers, List.cons_append] at this ⊢
+      simp only [pVal, this]; rfl
+    | cons kv kvs =>
+      simp only [toksMembers, List.cons_append] at this ⊢
+      simp only [pVal, this]; rfl
+theorem pItems_toks (hs : DecodeEsc) : ∀ (l : List J) (n : Nat) (rest : List Tok), l ≠ [] →
+    J.okList l = true → (toksItems l).length + 1 ≤ n → pItems n (toksItems l ++ Tok.rb :: rest) = some (l, rest)
+  | [], _, _, hne, _, _ => absurd rfl hne
+  | _, 0, _, _, _, hlen => by omega
+  | [x], n + 1, rest, _, hok, hlen => by
+    simp only [J.okList, Bool.and_true] at hok
+    simp only [toksItems] at hlen ⊢
+    simp [pItems, pVal_toksV hs x n (Tok.rb :: rest) hok (by omega)]
+  | x :: y :: xs, n + 1, rest, _, hok, hlen => by
+    simp only [J.okList, Bool.and_eq_true] at hok
+    simp only [toksItems, List.length_append, List.length_cons] at hlen
+    simp only [toksItems, List.append_assoc, List.cons_append]
+    have h2 := pItems_toks hs (y :: xs) n rest (by simp) (by simp [J.okList, hok.2]) (by omega)
+    simp [pItems, pVal_toksV hs x n _ hok.1 (by omega), h2]
+theorem pMembers_toks (hs : DecodeEsc) : ∀ (l : List (Str × J)) (n : Nat) (rest : List Tok), l ≠ [] →
+    J.okMembers l = true → (toksMembers l).length + 1 ≤ n →
+    pMembers n (toksMembers l ++ Tok.rc :: rest) = some (l, rest)
+  | [], _, _, hne, _, _ => absurd rfl hne
+  | _, 0, _, _, _, hlen => by omega
+  | [(k, v)], n + 1, rest, _, hok, hlen => by
+    simp only [J.okMembers, Bool.and_true, Bool.and_eq_true] at hok
+    simp only [toksMembers, List.length_cons] at hlen
+    simp only [toksMembers, List.cons_append]
+    simp [pMembers, hs k hok.1, pVal_toksV hs v n (Tok.rc :: rest) hok.2 (by omega)]
+  | (k, v) :: kv :: kvs, n + 1, rest, _, hok, hlen => by
+    simp only [J.okMembers, Bool.and_eq_true] at hok
+    simp only [toksMembers, List.length_append, List.length_cons] at hlen
+    simp only [toksMembers, List.append_assoc, List.cons_append]
+    have h2 := pMembers_toks hs (kv :: kvs) n rest (by simp) (by simpa [J.okMembers] using hok.2) (by omega)
+    simp [pMembers, hs k hok.1.1, pVal_toksV hs v n _ hok.1.2 (by omega), h2]
+end
+
+theorem parseToks_toksV (hs : DecodeEsc) (v : J) (hok : J.ok v = true) :
+    parseToks (toksV v) = some v := by
+  unfold parseToks
+  have := pVal_toksV hs v ((toksV v).length + 1) [] hok (by omega)
+  rw [List.append_nil] at this
+  rw [this]
+
+
 end Paroxy.JsonText
